@@ -462,11 +462,15 @@ def split_local_structs(body, counter):
     cands = {}
     for l in _find_all(body, lambda z: z.get("k") == "let" and isinstance(z.get("pat"), dict) and z["pat"].get("k") == "bind" and not z["pat"].get("sub") and isinstance(z.get("init"), dict)):
         init = l["init"]
-        if init.get("k") == "struct" and init.get("base") is None and init.get("fields") and str((init.get("res") or {}).get("dk", "")) in ("Struct", "SelfTyAlias", "TyAlias", "SelfCtor", "") or (init.get("k") == "struct" and init.get("base") is None and init.get("fields") and not str((init.get("res") or {}).get("dk", "")).startswith(("Variant", "Ctor"))):
+        if init.get("k") == "struct" and init.get("base") is None and init.get("fields") and not str((init.get("res") or {}).get("dk", "")).startswith(("Variant", "Ctor")):
             cands[l["pat"]["id"]] = l
+        elif init.get("k") == "call" and not init.get("args") and isinstance(init.get("f"), dict) and init["f"].get("k") == "path" and str((init["f"].get("res") or {}).get("path") or "").endswith("::default"):
+            # `let mut v = Verdict::default();` - the fields are the ones the function reads and writes; each starts as its default
+            cands[l["pat"]["id"]] = {**l, "init": {"k": "struct", "fields": None, "default": init}}
     if not cands:
         return body
     total, good = {i: 0 for i in cands}, {i: 0 for i in cands}
+    used_fields = {}
     def unwrap(x):
         while isinstance(x, dict) and (x.get("k") in ("addr", "use", "paren") or (x.get("k") == "unary" and x.get("op") == "Deref")):
             x = x.get("e") if x.get("k") != "unary" else x.get("a")
@@ -480,8 +484,15 @@ def split_local_structs(body, counter):
                 total[n["res"]["id"]] += 1
             if n.get("k") == "field":
                 b_ = unwrap(n.get("e"))
-                if isinstance(b_, dict) and b_.get("k") == "path" and (b_.get("res") or {}).get("dk") == "Local" and b_["res"].get("id") in cands and any(f_["name"] == n.get("name") for f_ in cands[b_["res"]["id"]]["init"]["fields"]):
-                    good[b_["res"]["id"]] += 1
+                if isinstance(b_, dict) and b_.get("k") == "path" and (b_.get("res") or {}).get("dk") == "Local" and b_["res"].get("id") in cands:
+                    fs_ = cands[b_["res"]["id"]]["init"]["fields"]
+                    if fs_ is None:
+                        used_fields.setdefault(b_["res"]["id"], [])
+                        if n.get("name") not in used_fields[b_["res"]["id"]]:
+                            used_fields[b_["res"]["id"]].append(n.get("name"))
+                        good[b_["res"]["id"]] += 1
+                    elif any(f_["name"] == n.get("name") for f_ in fs_):
+                        good[b_["res"]["id"]] += 1
             for v in n.values():
                 if isinstance(v, (dict, list)):
                     scan(v)
@@ -489,6 +500,9 @@ def split_local_structs(body, counter):
     chosen = {i for i in cands if total[i] > 0 and total[i] == good[i]}
     if not chosen:
         return body
+    for i in chosen:
+        if cands[i]["init"]["fields"] is None:
+            cands[i]["init"]["fields"] = [{"name": f_, "e": copy.deepcopy(cands[i]["init"]["default"])} for f_ in used_fields.get(i, [])]
     newid = {}
     for i in chosen:
         counter[0] += 1
@@ -498,7 +512,8 @@ def split_local_structs(body, counter):
         if isinstance(n, list):
             out = []
             for x in n:
-                if isinstance(x, dict) and x.get("k") == "let" and isinstance(x.get("pat"), dict) and x["pat"].get("k") == "bind" and x["pat"].get("id") in chosen and x is cands[x["pat"]["id"]]:
+                if isinstance(x, dict) and x.get("k") == "let" and isinstance(x.get("pat"), dict) and x["pat"].get("k") == "bind" and x["pat"].get("id") in chosen and x.get("ln") == cands[x["pat"]["id"]].get("ln"):
+                    x = cands[x["pat"]["id"]]
                     for f_ in x["init"]["fields"]:
                         out.append({"k": "let", "pat": {"k": "bind", "name": f'{x["pat"].get("name")}.{f_["name"]}', "id": newid[(x["pat"]["id"], f_["name"])], "mode": x["pat"].get("mode"), "sub": None}, "init": rw(f_["e"]), "els": None, "ln": x.get("ln"), "split": True})
                 else:
